@@ -203,6 +203,11 @@ def run_case(ctx, case):
     ctx.api("armodel_residual")
     r = call(ar.armodel_residual, params, y.copy(), **kw)
     # the same numbers in another memory layout / container / exact dtype
+    if n >= 1 and n <= 300:
+        ctx.reuse("armodel_sim", lambda p_, e_: call(ar.armodel_sim, p_, e_, **kw),
+                  [phi, e], y, case)
+        ctx.reuse("armodel_residual", lambda p_, y_: call(ar.armodel_residual, p_, y_, **kw),
+                  [phi, y], r, case)
     if n >= 1 and p > 1:
         prng = np.random.default_rng(digest(phi, e) % 2 ** 32)
         ctx.presentations("armodel_sim", lambda p_, e_: call(ar.armodel_sim, p_, e_, **kw),
